@@ -204,6 +204,11 @@ T_Crash == /\ Ev("crash")
            /\ dead' = TRUE
            /\ l' = l + 1 /\ UNCHANGED <<tid, sm, mode, cands, pend, oCli, oHdl, oCalls, allHdl, nErr, evs, cutSeen, taint10, stats>>
 
+\* what happened to the same client object before the judged session is not judged
+T_Pre == /\ (Ev("prebegin") \/ Ev("preend"))
+         /\ dead' = Ev("prebegin") /\ nErr' = 0 /\ evs' = <<>>
+         /\ l' = l + 1 /\ UNCHANGED <<tid, sm, mode, cands, pend, oCli, oHdl, oCalls, allHdl, cutSeen, taint10, verdicts, stats>>
+
 T_Skip == /\ (Ev("fin") \/ Ev("note"))
           /\ l' = l + 1 /\ UNCHANGED <<tid, sm, mode, cands, pend, oCli, oHdl, oCalls, allHdl, nErr, evs, cutSeen, dead, taint10, verdicts, stats>>
 
@@ -216,7 +221,7 @@ T_End == /\ Ev("end")
 TraceInit == /\ l = 1 /\ tid = 0 /\ sm = FALSE /\ mode = "lock" /\ cands = Cands0(FALSE) /\ pend = <<>> /\ oCli = <<>> /\ oHdl = <<>>
              /\ oCalls = <<>> /\ allHdl = <<>> /\ nErr = 0 /\ evs = <<>> /\ cutSeen = FALSE /\ dead = FALSE /\ taint10 = FALSE /\ verdicts = 0 /\ VL!InitV
              /\ stats = [scen |-> 0, barriers |-> 0]
-TraceNext == T_Reset \/ T_Srv \/ T_Send \/ T_Call \/ T_Hdl \/ T_Cli \/ T_ErrCb \/ T_Event \/ T_Cut \/ T_Quiet \/ T_Loops
+TraceNext == T_Reset \/ T_Pre \/ T_Srv \/ T_Send \/ T_Call \/ T_Hdl \/ T_Cli \/ T_ErrCb \/ T_Event \/ T_Cut \/ T_Quiet \/ T_Loops
              \/ T_Leak \/ T_Crash \/ T_Skip \/ T_End
 TraceSpec == TraceInit /\ [][TraceNext]_tvars
 =============================================================================
